@@ -226,6 +226,8 @@ const CRON_BASE: [&str; 12] = [
 ];
 
 pub fn run(ctx: &Ctx) -> PropResult {
+    let strad: Vec<String> = { let mut v = straddlers(1_100); v.extend(straddlers(4_200).into_iter().take(2)); v.extend(straddlers(66_000).into_iter().take(2)); v };
+    let sr = &strad;
     let vals = sample_values();
     let vr = &vals;
     // (2c) structural edits of well-formed default-form texts: EVERY deletion of 1..=7 consecutive characters and every
@@ -471,6 +473,18 @@ pub fn run(ctx: &Ctx) -> PropResult {
         rec.nontrivial(hash_str(&text));
         rec.bin("range-end-with-offset");
         judge_parse(rec, Kind::DateTime, &text, "y MM dd HH:mm:ss xxxxx", "range-end-with-offset");
+        // the same local dates written with a day-of-year field (another construction route inside parse)
+        let doy = cal::day_of_year(cal::days_from_civil(cal::astro_year(y), m, d)) as i64 + rng.range_i64(-1, 1);
+        let text2 = format!("{} {} {:02}:{:02}:{:02} {}{:02}:{:02}:{:02}", y, doy, h, mi, s, sign, a / 3600, a / 60 % 60, a % 60);
+        judge_parse(rec, Kind::DateTime, &text2, "y D HH:mm:ss xxxxx", "range-end-with-offset(day-of-year)");
+        let text3 = format!("{} {}", y, doy);
+        judge_parse(rec, Kind::Date, &text3, "y D", "range-end(day-of-year)");
+        // and with a time of day inside one offset of midnight, the offset pulling the instant back in range
+        let tod = rng.below(a as u64 + 2) as u32 % 86_400;
+        let text4 = format!("{} {} {:02}:{:02}:{:02} {}{:02}:{:02}:{:02}", y, doy, tod / 3600, tod / 60 % 60, tod % 60, sign, a / 3600, a / 60 % 60, a % 60);
+        judge_parse(rec, Kind::DateTime, &text4, "y D HH:mm:ss xxxxx", "range-end-with-offset(day-of-year)");
+        let text5 = format!("{} {:02} {:02} {:02}:{:02}:{:02} {}{:02}:{:02}:{:02}", y, m, dd, tod / 3600, tod / 60 % 60, tod % 60, sign, a / 3600, a / 60 % 60, a % 60);
+        judge_parse(rec, Kind::DateTime, &text5, "y MM dd HH:mm:ss xxxxx", "range-end-with-offset");
         let rfc = format!("{:04}-{:02}-{:02}T{:02}:{:02}:{:02}{}{:02}:{:02}", if idx % 2 == 0 { 1 } else { 9999 }, if idx % 2 == 0 { 1 } else { 12 }, if idx % 2 == 0 { 1 } else { 31 }, h, mi, s, sign, a / 3600, a / 60 % 60);
         judge_rfc(rec, &rfc);
     }));
@@ -533,6 +547,46 @@ pub fn run(ctx: &Ctx) -> PropResult {
         rec.bin("cron-long-token");
         judge_cron(rec, &text);
     }));
+    // (5a) straddlers: for every cut position up to 1100 bytes (and around 4096, 65536) a multi-byte character lies across
+    // it — in each cron field and item shape, as parse input and pattern, behind and in front of RFC 3339 / FromStr texts
+    wls.push(Workload::cases("cut_position_straddlers", strad.len() as u64 * 40, move |rec, idx, _| {
+        let t = &sr[(idx % sr.len() as u64) as usize];
+        let k = idx / sr.len() as u64;
+        rec.nontrivial(hash_str(t) ^ mix64(k));
+        rec.bin("straddler");
+        match k {
+            0..=19 => {
+                let f = (k % 5) as usize;
+                let mut fields = ["*".to_string(), "*".to_string(), "*".to_string(), "*".to_string(), "*".to_string()];
+                fields[f] = match k / 5 {
+                    0 => t.clone(),
+                    1 => format!("*/{}", t),
+                    2 => format!("1-{}", t),
+                    _ => format!("1,{}", t),
+                };
+                judge_cron(rec, &fields.join(" "));
+            }
+            20 => judge_cron(rec, t),
+            21 => judge_cron(rec, &format!("* * * * * {}", t)),
+            22..=24 => {
+                let kind = [Kind::DateTime, Kind::Date, Kind::Time][(k - 22) as usize];
+                judge_parse(rec, kind, t, "yyyy-MM-dd HH:mm:ss", "straddler");
+                judge_parse(rec, kind, "2022-05-02 15:30:20", t, "straddler");
+                judge_parse(rec, kind, &format!("2022{}", t), &format!("yyyy{}", t), "straddler");
+                judge_parse(rec, kind, &format!("{}x", t), &format!("'{}'MM", t), "straddler");
+            }
+            25 => judge_rfc(rec, &format!("2022-05-02T15:30:20{}", t)),
+            26 => judge_rfc(rec, &format!("2022-05-02T15:30:20.{}Z", t)),
+            27 => judge_rfc(rec, &format!("{}2022-05-02T15:30:20Z", t)),
+            28 => judge_rfc(rec, &format!("2022-05-02T15:30:20+{}", t)),
+            29 => judge_from_str(rec, t),
+            30 => judge_from_str(rec, &format!("2022-05-{}", t)),
+            31 => judge_from_str(rec, &format!("15:30:{}", t)),
+            32 => judge_format(rec, t, 0, vr, "straddler"),
+            33 => judge_format(rec, &format!("'{}", t), 1, vr, "straddler"),
+            _ => judge_from_str(rec, &format!("{}:30:20", t)),
+        }
+    }));
     // (5b) very long runs of one symbol: the run length becomes a padding width / repeat count
     wls.push(Workload::cases("very_long_symbol_runs", 19 * 6, move |rec, idx, _| {
         let c = "GyqMwdDeabhHKkmsnXx".chars().nth((idx % 19) as usize).unwrap();
@@ -556,8 +610,8 @@ pub fn run(ctx: &Ctx) -> PropResult {
         "(1) EXHAUSTIVE: {} (symbol, width) runs x every input string of length ≤ {} over the alphabet {{0 1 9 - + a Z : é ' space .}} x 3 parse functions; (2) EXHAUSTIVE: every pattern of length ≤ 5 over {{' y T é space}} x every input of length ≤ {} over {{2 - T é ' space}} for parse (3 types) and the patterns for format on 7 values (BC, leap day, both range ends with offsets); (3) C12 round-trip material with delete/insert/replace/truncate mutations (multi-byte, NUL, quotes, signs, digits) of the input, the pattern, or both; (4) RFC 3339 / FromStr / cron strings under the same mutations, and range-end local times with offsets that push the UTC instant out of range; (4b) EXHAUSTIVE: a valid RFC 3339 date-time prefix followed by every string of length ≤ 5 (thorough 6) over {{+ - 0 5 : Z é 日 .}} as fraction/offset part; (4c) cron fields holding tokens of up to 48 characters of mixed byte widths; (5) 10 000-character inputs and patterns, and runs of 255 … 300 000 repetitions of each single symbol (the run length is used as a padding width). Oracle: outcome class — Ok (then every getter/format of the value must also return and the value be in range), Err, or panic; only a panic (any class, both builds) or an invalid Ok value is a violation. Non-trivial = every mutated/enumerated case; exhaustive cases distinct by construction (counted), others by hash. Pile-ups: several fields for the same component in one pattern (every width of n; several hour, year, day, minute/second, zone, period symbols) with every digit at its maximum, for parse on all three types and for format. EVERY deletion of 1..=7 and duplication of 1..=3 consecutive characters of 14 default-form texts (RFC 3339 with and without fraction/offset, yyyy-MM-dd incl. negative and 5-digit years, HH:mm:ss) through parse_rfc3339 and the three FromStr impls.",
         combos.len(), max_len, in_len
     );
-    meta.rule.push_str(" (3b) the text APIs under a hostile ambient state: the clock pinned (hook) at the ends of the range, the era boundary, year 10000, 2^k units from the epochs, today, anywhere, and the system zone redirected (hook) to fixed offsets up to ±23:59:59 or real zones; patterns with two-digit years (clock dependent) in several companies and generated patterns; inputs exact, mutated, truncated; also parse_rfc3339, from_str and CronSchedule::parse there.");
-    meta.required_bins = vec!["ambient/judged", "clock/upper-range-end", "clock/lower-range-end", "clock/around-0001-01-01", "clock/2^k-units-from-an-epoch", "range-end-with-offset", "long-input", "very-long-symbol-run", "cron-long-token"];
+    meta.rule.push_str(" (3b) the text APIs under a hostile ambient state: the clock pinned (hook) at the ends of the range, the era boundary, year 10000, 2^k units from the epochs, today, anywhere, and the system zone redirected (hook) to fixed offsets up to ±23:59:59 or real zones; patterns with two-digit years (clock dependent) in several companies and generated patterns; inputs exact, mutated, truncated; also parse_rfc3339, from_str and CronSchedule::parse there. (5a) cut-position straddlers: strings in which for every byte offset up to 1100 (and around 4096 / 65536) a 2-, 3- or 4-byte character lies across the offset, in every cron field and item shape, as parse input, pattern and quoted literal, around RFC 3339 / FromStr texts and as format patterns. Range-end texts also with a day-of-year field and with times of day inside one offset of midnight.");
+    meta.required_bins = vec!["straddler", "ambient/judged", "clock/upper-range-end", "clock/lower-range-end", "clock/around-0001-01-01", "clock/2^k-units-from-an-epoch", "range-end-with-offset", "long-input", "very-long-symbol-run", "cron-long-token"];
     meta.assumptions = vec!["panics are observed through catch_unwind with a process-wide hook; a hang is caught by the per-case watchdog of the worker pool".into()];
     let _ = (Offset::Fixed(0), TimeUtilities::hour(&Time::default()), OffsetUtilities::get_offset(&Time::default()));
     Ok((meta, out))
